@@ -246,6 +246,16 @@ func (s *slicer) walk(v ssa.Value, visit func(ssa.Value), depth int) {
 		for _, st := range storesTo(x) {
 			s.walk(st, visit, depth+1)
 		}
+		// a struct literal: the values stored into its fields
+		if refs := x.Referrers(); refs != nil {
+			for _, ref := range *refs {
+				if fa, ok := ref.(*ssa.FieldAddr); ok {
+					for _, st := range storesTo(fa) {
+						s.walk(st, visit, depth+1)
+					}
+				}
+			}
+		}
 	case *ssa.Call:
 		if s.throughArgs {
 			for _, a := range x.Call.Args {
